@@ -22,6 +22,10 @@ func (fgen *funcGen) newAllocaInst(ident ir.LocalIdent, old *ast.AllocaInst) (*i
 		return nil, errors.WithStack(err)
 	}
 	inst := &ir.InstAlloca{LocalIdent: ident, ElemType: elemType}
+	// (optional) Address space; part of inst.Typ.
+	if n, ok := old.AddrSpace(); ok {
+		inst.AddrSpace = irAddrSpace(n)
+	}
 	// Cache inst.Typ.
 	inst.Type()
 	return inst, nil
